@@ -18,7 +18,7 @@
      hypothesis; used for the non-vacuity examples in props/C04.v). *)
 From stdpp Require Import gmap strings.
 Require Import Grits.Base Grits.ModeDefs Grits.Modes Grits.STypes Grits.Forms Grits.Subst Grits.TcDeps Grits.Expand Grits.Runtime.
-Require Import Grits.spec.Sax Grits.proofs.Causality.
+Require Import Grits.TcTop Grits.spec.Sax Grits.proofs.Causality.
 
 (* ------------------------------------------------------------------ the abstraction *)
 Definition proc_obj (pr : proc) : list sobj :=
@@ -649,3 +649,38 @@ Proof.
       exists (ls1 ++ ls2). split; [by eapply sax_steps_app|]. by rewrite Hl2, Hl1, app_assoc.
     + simplify_eq. split; [done|]. exists []. split; [by apply sax_refl|by rewrite app_nil_r].
 Qed.
+
+(* ------------------------------------------------------------------ the full statement aimed at *)
+Fixpoint lin_form (f : form) : bool :=
+  match f with
+  | FRecv _ _ _ k | FWait _ k | FShift _ _ k | FPrint _ k => lin_form k
+  | FCase _ bs => lin_brs bs
+  | FNew _ b k => lin_form b && lin_form k
+  | FFwd _ _ d => negb d
+  | FSplit _ _ _ _ | FDrop _ _ => false
+  | _ => true
+  end
+with lin_brs (b : branches) : bool :=
+  match b with BrNil => true | BrCons _ _ k r => lin_form k && lin_brs r end.
+(* a program of the linear connective fragment: no drop, no split, no multi-provider declaration *)
+Definition linear_program (p : program) : bool :=
+  forallb (fun pr => match pr_providers pr with [_] => lin_form (pr_body pr) | _ => false end) (p_procs p) &&
+  forallb (fun fd => lin_form (fn_body fd)) (p_funs p).
+
+(* FULL STATEMENT (not proved in this generality): for every accepted program of the linear fragment,
+   every run of the Async model prints a label sequence that an execution of Sax.v from the
+   program's own SAX initial configuration prints.
+   Proved: `refines_sax` (one step, under Inv), `refines_sax_run`, `prints_admitted_partial`
+   (with Inv's preservation as hypothesis), `prints_admitted_checked` (Inv checked along the run).
+   Missing for the full statement: (1) Inv holds of init_config of an accepted linear program and is
+   preserved by steps — its four parts are consequences of C01's invariants: one initialised
+   provider and well-formed messages (Typed), message kind / FWD only to a provider waiting on
+   itself / no receive on a closed channel (Typed + Topo), fresh identifiers at a cut (per-process
+   counters: the cid analogue of Causality.pid_inv), head form in the fragment (lin_form is closed
+   under substitution and unfolding); (2) α (init_config p) ≡ₚ sax_init p (both substitute the same
+   top-level channel names; only the order of the objects differs). *)
+Definition prints_admitted_stmt : Prop :=
+  forall p p', TcTop.typecheck p = TcTop.Accept p' -> linear_program p' = true ->
+  forall fuel pick, exists C',
+    sax_steps (p_funs p') false (sax_init p')
+      (labels (res_config (exec_run fuel pick Async (p_types p') (p_funs p') (init_config p')))) C'.
